@@ -3,29 +3,39 @@
 #   must-fail: /verif/selftest/mustfail/*.diff and every /verif/seeded/*/patch.diff whose meta.json lists a catching check
 #   benign:    /verif/selftest/benign/*.diff (semantics-preserving edits of code under contract) must raise no alarm
 # Each patch carries "# props: Cxx,Cyy" (checks to run) in its header (seeded: taken from meta.json "caught_by").
+# Scratch copies live under ${TMPDIR:-/tmp} and are removed after each entry. SELFTEST_JOBS entries run in parallel (default 4).
 only=$1
 export GOFLAGS=-mod=mod GOPROXY=off GOSUMDB=off GOTOOLCHAIN=local
-bad=0; n=0
-run() { # file expect props
-  f=$1; expect=$2; props=$3
-  d=$(mktemp -d /tmp/govc-selftest.XXXXXX)
+if [ "${2:-}" = --one ]; then # internal: selftest.sh ONLY --one file expect props
+  f=$3; expect=$4; props=$5
+  d=$(mktemp -d "${TMPDIR:-/tmp}/govc-selftest.XXXXXX")
   rsync -a --exclude .git /repo/ $d/
-  if ! (cd $d && patch -p1 -s --no-backup-if-mismatch < $f >/dev/null 2>&1); then echo "SKIP $(basename $(dirname $f))/$(basename $f): does not apply to the current tree"; rm -rf $d; return; fi
+  if ! (cd $d && patch -p1 -s --no-backup-if-mismatch < $f >/dev/null 2>&1); then echo "SKIP $(basename $(dirname $f))/$(basename $f): does not apply to the current tree"; rm -rf $d; exit 0; fi
   for p in ${props//,/ }; do
-    [ -n "$only" ] && [ "$only" != "$p" ] && continue
+    [ "$only" != - ] && [ "$only" != "$p" ] && continue
     out=$(GOVC_REPO=$d GOVC_SELFTEST=1 /verif/bin/govc check -prop $p 2>&1); rc=$?
-    n=$((n+1))
-    if [ "$expect" = fail ] && [ $rc -ne 1 ]; then echo "SELFTEST-MISS $p $f (exit $rc)"; bad=$((bad+1));
-    elif [ "$expect" = pass ] && [ $rc -ne 0 ]; then echo "SELFTEST-FALSE-ALARM $p $f (exit $rc)"; echo "$out" | grep SELFTEST-VIOLATION | head -3; bad=$((bad+1));
+    if [ "$expect" = fail ] && [ $rc -ne 1 ]; then echo "SELFTEST-MISS $p $f (exit $rc)";
+    elif [ "$expect" = pass ] && [ $rc -ne 0 ]; then echo "SELFTEST-FALSE-ALARM $p $f (exit $rc)"; echo "$out" | grep SELFTEST-VIOLATION | head -3 | sed 's/^SELFTEST-VIOLATION/  reported:/';
     else echo "ok   $expect $p $(basename $(dirname $f))/$(basename $f)"; fi
   done
   rm -rf $d
+  exit 0
+fi
+jobs=$(mktemp "${TMPDIR:-/tmp}/govc-selftest-jobs.XXXXXX")
+add() { # file expect props
+  [ -z "$3" ] && return
+  if [ -n "$only" ]; then case ",$3," in *",$only,"*) ;; *) return;; esac; fi
+  echo "$1 $2 $3" >> $jobs
 }
-for f in /verif/selftest/mustfail/*.diff; do props=$(sed -n 's/^# props: //p' $f | head -1); run $f fail "$props"; done
+for f in /verif/selftest/mustfail/*.diff; do add $f fail "$(sed -n 's/^# props: //p' $f | head -1)"; done
 for m in /verif/seeded/*/meta.json; do
-  props=$(python3 -c "import json,sys; print(','.join(json.load(open('$m')).get('caught_by',[])))")
-  [ -n "$props" ] && run $(dirname $m)/patch.diff fail "$props"
+  add $(dirname $m)/patch.diff fail "$(python3 -c "import json,sys; print(','.join(json.load(open('$m')).get('caught_by',[])))")"
 done
-for f in /verif/selftest/benign/*.diff; do [ -e $f ] || continue; props=$(sed -n 's/^# props: //p' $f | head -1); run $f pass "$props"; done
+for f in /verif/selftest/benign/*.diff; do [ -e $f ] || continue; add $f pass "$(sed -n 's/^# props: //p' $f | head -1)"; done
+res=$(xargs -a $jobs -P "${SELFTEST_JOBS:-4}" -L1 /verif/tools/selftest.sh "${only:--}" --one 2>&1)
+rm -f $jobs
+echo "$res"
+n=$(echo "$res" | grep -cE "^ok|^SELFTEST-(MISS|FALSE)")
+bad=$(echo "$res" | grep -cE "^SELFTEST-(MISS|FALSE)")
 echo "selftest: $n runs, $bad problems"
-[ $bad -eq 0 ]
+[ "$bad" -eq 0 ]
